@@ -32,6 +32,7 @@ import (
 	"strconv"
 	"strings"
 	"sync"
+	"time"
 
 	"github.com/lestrrat-go/jwx/v2/jwk"
 	"github.com/lestrrat-go/jwx/v2/jws"
@@ -611,11 +612,20 @@ func (r *v6Resolver) Resolve(id did.DID, md *resolver.ResolveMetadata) (*did.Doc
 	return doc, &resolver.DocumentMetadata{}, nil
 }
 
+// ---------------------------------------------------------------- never wait for ever
+
+// v6StepLimit bounds one step of a schedule, v6OpLimit one op; v6Hang is set by the test entry: it records the op in progress
+// (so that the ops executed so far are the replay) and ends the process with exit code 97.
+var v6StepLimit = 20 * time.Second
+var v6OpLimit = 60 * time.Second
+var v6Hang = func(msg string) { fmt.Fprintln(os.Stderr, "HANG: "+msg); os.Exit(97) }
+
 // ---------------------------------------------------------------- gating store (schedules)
 
 type v6TidKey struct{}
 
 type v6Ctl struct {
+	phase  []int // per thread: 0 = its read transaction has not run yet
 	grant  []chan struct{}
 	events chan [2]int // tid, 0=arrived at a gate 1=step done 2=exit
 }
@@ -635,24 +645,25 @@ func (g *v6Gate) tid(ctx context.Context) int {
 	return -1
 }
 
+// The explorer's atomic steps of one Add: step 1 = the read transaction (presence + verification); step 2 = everything
+// after it (addMutex, the write transaction under the write lock, rollback handler / after-commit hooks) — state.Add takes
+// addMutex between the two, so a thread must never be parked while it holds that mutex: the park points are BEFORE the
+// first Read and right AFTER it (still inside the wrapper); everything later in the same Add passes straight through.
 func (g *v6Gate) Read(ctx context.Context, fn func(stoabs.ReadTx) error) error {
 	t := g.tid(ctx)
-	if t < 0 {
+	if t < 0 || g.ctl.phase[t] != 0 {
 		return g.KVStore.Read(ctx, fn)
 	}
 	g.ctl.events <- [2]int{t, 0}
 	<-g.ctl.grant[t]
 	err := g.KVStore.Read(ctx, fn)
+	g.ctl.phase[t] = 1
+	g.ctl.events <- [2]int{t, 0}
+	<-g.ctl.grant[t]
 	return err
 }
 
 func (g *v6Gate) Write(ctx context.Context, fn func(stoabs.WriteTx) error, opts ...stoabs.TxOption) error {
-	t := g.tid(ctx)
-	if t < 0 {
-		return g.KVStore.Write(ctx, fn, opts...)
-	}
-	g.ctl.events <- [2]int{t, 0}
-	<-g.ctl.grant[t]
 	return g.KVStore.Write(ctx, fn, opts...)
 }
 
@@ -1057,6 +1068,7 @@ func (x *v6Exec) sched(op v6Op) string {
 	ctl := &v6Ctl{events: make(chan [2]int, 16)}
 	for i := 0; i < n; i++ {
 		ctl.grant = append(ctl.grant, make(chan struct{}))
+		ctl.phase = append(ctl.phase, 0)
 	}
 	results := make([]string, n)
 	for i := range op.Calls {
@@ -1075,8 +1087,12 @@ func (x *v6Exec) sched(op v6Op) string {
 			ctl.events <- [2]int{i, 2}
 		}()
 		// let it reach its first gate (or exit: parse failure) before starting the next, so that start-up is deterministic
-		ev := <-ctl.events
-		status[ev[0]] = ev[1]
+		select {
+		case ev := <-ctl.events:
+			status[ev[0]] = ev[1]
+		case <-time.After(v6StepLimit):
+			v6Hang(fmt.Sprintf("schedule %v: thread %d did not start within %v", op.Sched, i, v6StepLimit))
+		}
 	}
 	stepOne := func(t int) {
 		if t < 0 || t >= n || status[t] == 2 {
@@ -1084,10 +1100,15 @@ func (x *v6Exec) sched(op v6Op) string {
 		}
 		ctl.grant[t] <- struct{}{}
 		for {
-			ev := <-ctl.events
-			if ev[0] == t {
-				status[t] = ev[1]
-				return
+			select {
+			case ev := <-ctl.events:
+				if ev[0] == t {
+					status[t] = ev[1]
+					return
+				}
+			case <-time.After(v6StepLimit):
+				// a thread that neither reaches its next park point nor returns: never wait for ever
+				v6Hang(fmt.Sprintf("schedule %v: thread %d did not finish its step within %v", op.Sched, t, v6StepLimit))
 			}
 		}
 	}
@@ -1517,7 +1538,12 @@ func (g *v6Gen) history(steps int, schedules bool) {
 		dagTxs = append(dagTxs, t)
 		byRef[t.ref] = t
 	}
+	docSrc := map[string]map[string]bool{} // did -> refs that are a source transaction of (a version of) its document
 	regDoc := func(did string, src string, res string, vms [][2]any) {
+		if docSrc[did] == nil {
+			docSrc[did] = map[string]bool{}
+		}
+		docSrc[did][src] = true
 		g.emit(v6Op{Op: "doc", Did: did, Src: src, Doc: &v6DocEntry{Res: res, Vms: vms}})
 	}
 
@@ -1533,6 +1559,40 @@ func (g *v6Gen) history(steps int, schedules bool) {
 		kind := g.rnd.Intn(100)
 		if len(dagTxs) == 0 {
 			kind = 0
+		}
+		if len(dids) > 0 && g.rnd.Intn(10) == 0 {
+			// signed with a key that the signer's CURRENT document lists, but none of the prevs is a source transaction of that
+			// document (key added later / on another branch): not resolvable "as of the referenced transactions"
+			var names []string
+			for d := range dids {
+				names = append(names, d)
+			}
+			sort.Strings(names)
+			d := names[g.rnd.Intn(len(names))]
+			var cands []v6Tx
+			for _, t := range dagTxs {
+				if !docSrc[d][t.ref] {
+					cands = append(cands, t)
+				}
+			}
+			if len(cands) > 0 {
+				var prevs []string
+				hi := -1
+				for i := 1 + g.rnd.Intn(2); i > 0; i-- {
+					t := cands[g.rnd.Intn(len(cands))]
+					prevs = append(prevs, t.ref)
+					if t.clock > hi {
+						hi = t.clock
+					}
+				}
+				pid := newPid()
+				sp := v6Spec{prevs: prevs, lc: strconv.Itoa(hi + 1), signer: dids[d], embed: -1, kid: d + "#k" + strconv.Itoa(dids[d]), pid: pid, ph: v6Sha(v6Payload(&pid))}
+				c := offer(sp, 1, "kid-key-only-in-current-document")
+				if strings.HasPrefix(g.emit(v6Op{Op: "add", Call: &c}), "r=ok") {
+					admit(sp, c, "")
+				}
+				continue
+			}
 		}
 		if len(storedPids) > 0 && g.rnd.Intn(12) == 0 {
 			// a valid transaction declaring a payload hash that is ALREADY in the payload store (published by an earlier
@@ -2097,6 +2157,20 @@ func VerifC06Sha(b []byte) string              { return v6Sha(b) }
 func VerifC06AddClass(err error) string        { return v6AddClass(err) }
 func VerifC06ParseClass(err error) string      { return v6ParseClass(err) }
 func VerifC06Input(c VerifC06Call) []byte      { in, _ := base64.StdEncoding.DecodeString(c.In); return in }
+
+// VerifC06Watch is the per-op watchdog of the legs in other packages: call the returned func when the op returned.
+// After v6OpLimit it prints the op in progress and ends the process with exit code 97 (reported as a hang by the check).
+func VerifC06Watch(desc string) func() {
+	done := make(chan struct{})
+	go func() {
+		select {
+		case <-done:
+		case <-time.After(v6OpLimit):
+			v6Hang("op did not return within " + v6OpLimit.String() + ": " + desc)
+		}
+	}()
+	return func() { close(done) }
+}
 
 // VerifC06DropNotifiers removes the subscribers a wired Network registered (their receivers need running engines: NATS);
 // the legs in other packages look at admission, not at event publication
